@@ -43,6 +43,8 @@ def run_families(ctx, scenarios, tag, bound=None, require_done=True):
         cov["samples"].append({"scenario": s0["id"], "opt": s0["opt"], "ops": s0["ops"][:14]})
     cov["rule"] = ("one evaluation = one scenario script executed on the real stack and its recorded trace checked by TLC "
                    "against spec/Trace_Rapid.tla; distinct = distinct (options, op sequence) fingerprints that ran to completion")
+    if summary.get("validation_timeouts") and not ctx.violations:
+        raise Inconclusive("trace validation did not finish for %s" % summary["validation_timeouts"][:5])
     hung = [o for o in outcomes.values() if o["status"] == "hang"]
     if hung and require_done and not ctx.violations:
         raise Inconclusive("driver hung in %d scenario(s), e.g. %s: %s" % (len(hung), hung[0]["id"], hung[0].get("detail")))
